@@ -196,94 +196,85 @@ pub fn declared_work(bytes: &[u8], lim: &Limits) -> Work {
     if h.internal == 0 || h.internal > 4 {
         return w;
     }
-    // iterative walk (a chain of thousands of leaves must not overflow *our* stack)
-    let mut seen: BTreeSet<(u64, u64)> = BTreeSet::new();
-    let mut todo: Vec<(u64, u64)> = vec![(h.root_off, h.root_len)];
-    while let Some((off, len)) = todo.pop() {
-        if w.over {
-            break;
-        }
-        // a directory that was already visited declares no new work (cycles and shared leaves are
-        // finite inputs; a reader that loops on them is at fault, not the budget)
-        if !seen.insert((off, len)) {
-            continue;
+    // Depth-first walk that over-approximates what a streaming reader does: every pointer is followed each
+    // time it is met (no global de-duplication: a reader re-expands a leaf that is referenced twice), a
+    // directory already on the current path is not entered again (a reader stops there), nesting is followed as
+    // deep as the visit budget allows (callers run on threads with a large stack), errors do not stop the walk
+    // (a reader would stop, i.e. do less).
+    fn go(bytes: &[u8], h: &SHeader, off: u64, len: u64, lim: &Limits, w: &mut Work, path: &mut Vec<(u64, u64)>) {
+        if w.over || path.contains(&(off, len)) {
+            return;
         }
         w.visits += 1;
         if w.visits > lim.max_visits {
             w.over = true;
-            break;
+            return;
         }
-        let Some(end) = off.checked_add(len) else { continue };
+        // a reader bounds the section with take(len): an overflowing end simply means "to the end of the file"
+        let end = off.saturating_add(len);
         let lo = (off.min(bytes.len() as u64)) as usize;
         let hi = (end.min(bytes.len() as u64)) as usize;
-        let sl = &bytes[lo..hi];
-        let (raw, over) = codec::decompress_lenient(h.internal, sl, lim.max_dir_bytes);
-        if over {
-            w.over = true;
-            break;
-        }
+        let (raw, over) = codec::decompress_lenient(h.internal, &bytes[lo..hi], lim.max_dir_bytes);
         w.dir_bytes += raw.len() as u64;
-        if w.dir_bytes > lim.max_dir_bytes as u64 {
+        if over || w.dir_bytes > lim.max_dir_bytes as u64 {
             w.over = true;
-            break;
+            return;
         }
-        // lenient decode: wrapping arithmetic, stop at the first undecodable field
+        // lenient decode: wrapping arithmetic, whatever columns are there count
         let mut pos = 0usize;
-        let Ok(n) = super::varint::get(&raw, &mut pos) else { continue };
+        let Ok(n) = super::varint::get(&raw, &mut pos) else { return };
         if n > raw.len() as u64 {
-            continue;
+            return; // the id column cannot be complete: a reader fails before expanding anything
         }
         let n = n as usize;
-        let mut ok = true;
-        let mut col = |pos: &mut usize, ok: &mut bool| -> Vec<u64> {
+        let col = |pos: &mut usize| -> Vec<u64> {
             let mut v = Vec::with_capacity(n);
             for _ in 0..n {
                 match super::varint::get(&raw, pos) {
                     Ok(x) => v.push(x),
-                    Err(_) => {
-                        *ok = false;
-                        break;
-                    }
+                    Err(_) => break,
                 }
             }
             v
         };
-        let _ids = col(&mut pos, &mut ok);
-        if !ok {
-            continue;
+        let ids = col(&mut pos);
+        if ids.len() < n {
+            return;
         }
-        let runs = col(&mut pos, &mut ok);
-        // (runs may be cut short by a broken stream: whatever was decoded still counts)
+        let runs = col(&mut pos);
         for r in &runs {
             w.tiles = w.tiles.saturating_add(*r & 0xffff_ffff);
         }
         if w.tiles > lim.max_tiles {
             w.over = true;
-            break;
+            return;
         }
-        if !ok {
-            continue;
+        if runs.len() < n {
+            return;
         }
-        let lens = col(&mut pos, &mut ok);
-        if !ok {
-            continue;
+        let lens = col(&mut pos);
+        if lens.len() < n {
+            return;
         }
         let mut offs: Vec<u64> = Vec::with_capacity(n);
         for i in 0..n {
-            let Ok(v) = super::varint::get(&raw, &mut pos) else {
-                ok = false;
-                break;
-            };
+            let Ok(v) = super::varint::get(&raw, &mut pos) else { break };
             let o = if v == 0 && i > 0 { offs[i - 1].wrapping_add(lens[i - 1] & 0xffff_ffff) } else { v.wrapping_sub(1) };
             offs.push(o);
         }
-        let _ = ok;
+        path.push((off, len));
         for i in 0..offs.len() {
             if runs[i] & 0xffff_ffff == 0 {
-                todo.push((h.leaf_off.wrapping_add(offs[i]), lens[i] & 0xffff_ffff));
+                go(bytes, h, h.leaf_off.wrapping_add(offs[i]), lens[i] & 0xffff_ffff, lim, w, path);
+                if w.over {
+                    break;
+                }
             }
         }
+        path.pop();
     }
+    let mut path = Vec::new();
+    go(bytes, &h, h.root_off, h.root_len, lim, &mut w, &mut path);
     w
 }
 
